@@ -15,9 +15,29 @@ for f in sorted(glob.glob(os.path.join(HERE, 'claims', 'C*.json'))):
     CLAIMED[c['property_id']] = (c['technique'], c['level_text'], c['level_note'], c['design_ref'])
 UNDER_CONSTRUCTION = 'check under construction in this session (model + correspondence planned in DESIGN.md section 5); not claimed until green'
 
+import re
+KNOWN = {}
+for e in json.load(open(os.path.join(HERE, 'known_findings.json')))['findings']:
+    KNOWN.setdefault(e['id'], []).append(e)
+
+
+def finding_status(pid, text):
+    """the claims were written while the findings were being recorded; their status today comes from known_findings.json"""
+    ids = sorted(set(re.findall(r'F-C\d\d-\d+|F\d+b?', text)) | {i for i, es in KNOWN.items() if any(e['property'] == pid for e in es)})
+    fixed = ['%s (%s)' % (i, e['commit']) for i in ids for e in KNOWN.get(i, []) if e['status'] == 'fixed']
+    opened = [i for i in ids for e in KNOWN.get(i, []) if e['status'] == 'open' and e['property'] == pid]
+    out = ' Status on the current tree (known_findings.json): '
+    out += ('repaired in /repo: ' + ', '.join(dict.fromkeys(fixed)) + '; ') if fixed else ''
+    out += ('recorded as open findings of this property: ' + ', '.join(dict.fromkeys(opened)) + '.') if opened else 'no open finding of this property.'
+    out += (' Where the note above calls a repaired finding "the tree\'s behaviour" it describes the pinned commit; the check '
+            'reports that behaviour again if it returns (tools/revert_mutants.sh).') if fixed else ''
+    return out
+
+
 checks = []
 for pid in sorted(CLAIMED):
     tech, text, note, ref = CLAIMED[pid]
+    note = note + finding_status(pid, note + ' ' + text)
     checks.append({
         'property_id': pid,
         'quick_cmd': './check %s --tier quick' % pid,
@@ -44,7 +64,7 @@ man = {
               'kind_free_text': 'Lean 4 project: generic executable model (Num carrier), theorems over R in Props/, native Float driver optidrv; Python harness in harness/ drives implementation and model through a hex line protocol'}],
  'checks': checks,
  'not_applicable': [{'property_id': pid, 'reason': UNDER_CONSTRUCTION} for pid in sorted(TITLES) if pid not in CLAIMED],
- 'notes': 'See DESIGN.md. Exit codes: 0 ok, 1 violation (VIOLATION line printed), 2 infrastructure failure/timeout.',
+ 'notes': 'See DESIGN.md (section 11 is the build log). Exit codes: 0 ok, 1 violation (VIOLATION line printed), 2 infrastructure failure/timeout. Every check first replays its regression corpus (corpus/<P>/*.json), then runs the seeded generator (VERIF_SEED); when /repo/optiland differs from baseline/source_hashes.json the quick tier adds two further seeds. The thorough tier also runs leanchecker on the property\'s Lean modules.',
 }
 json.dump(man, open(os.path.join(HERE, 'MANIFEST.json'), 'w'), indent=1)
 print('claimed', sorted(CLAIMED))
